@@ -45,7 +45,7 @@ theorem minv_getDifference {O log keys org start} (hO : GoodOrders O) (hS : Scn 
         (m2.w.commonDiff m2.pts.state m2.qts.state).1.p0 = m2.w.p0 ∧
         (m2.w.commonDiff m2.pts.state m2.qts.state).1.q0 = m2.w.q0 ∧
         (m2.w.commonDiff m2.pts.state m2.qts.state).1.c0 = m2.w.c0 := by
-      rcases commonDiff_fst m2.w m2.pts.state m2.qts.state with h' | h' <;> rw [h'] <;> exact ⟨rfl, rfl, rfl, rfl⟩
+      exact commonDiff_static m2.w m2.pts.state m2.qts.state
     have h3 : MInv O log keys org start
         (({ m2 with w := (m2.w.commonDiff m2.pts.state m2.qts.state).1 } : Mgr).emit [.apiDiff m2.pts.state m2.qts.state]) :=
       minv_emit_neutral (minv_world h2 _ hst.1 hst.2.1 hst.2.2.1 hst.2.2.2) _ (neutral_api log keys _ _)
@@ -78,12 +78,8 @@ theorem minv_getDifference {O log keys org start} (hO : GoodOrders O) (hS : Scn 
 
 /-! ### `channelState.getDifference` -/
 
-theorem chanDiff_fst (w : World) (c : Nat) (pts : Int) :
-    (w.chanDiff c pts).1 = w ∨ (w.chanDiff c pts).1 = { w with chTooLong := w.chTooLong.filter (· != c) } := by
-  unfold World.chanDiff
-  split
-  · right; rfl
-  · left; simp only; split <;> rfl
+theorem if_nonempty_self (l : List Entry) : (if (!l.isEmpty) = true then l else []) = l := by
+  cases l <;> simp
 
 theorem key_of_box {O log keys org start m} (h : MInv O log keys org start m) (k : Nat) (b : Box)
     (hb : m.getBox k = some b) : k ∈ keys := by
@@ -120,7 +116,7 @@ theorem minv_chGetDifference {O log keys org start} (hO : GoodOrders O) (hS : Sc
       have hk : 2 + c ∈ keys := key_of_box h1 _ b hb
       have hst : (m1.w.chanDiff c b.state).1.log = m1.w.log ∧ (m1.w.chanDiff c b.state).1.p0 = m1.w.p0 ∧
           (m1.w.chanDiff c b.state).1.q0 = m1.w.q0 ∧ (m1.w.chanDiff c b.state).1.c0 = m1.w.c0 := by
-        rcases chanDiff_fst m1.w c b.state with h' | h' <;> rw [h'] <;> exact ⟨rfl, rfl, rfl, rfl⟩
+        exact chanDiff_static m1.w c b.state
       have h2 : MInv O log keys org start
           (({ m1 with w := (m1.w.chanDiff c b.state).1 } : Mgr).emit [.apiChDiff c b.state]) :=
         minv_emit_neutral (minv_world h1 _ hst.1 hst.2.1 hst.2.2.1 hst.2.2.2) _ (neutral_apiCh log keys _ _)
@@ -129,7 +125,9 @@ theorem minv_chGetDifference {O log keys org start} (hO : GoodOrders O) (hS : Sc
       have hlog : m1.w.log = log := h1.coh.hlog
       have hsort : KeySorted m1.w.log (2 + c) := by rw [hlog]; exact hS.sorted _ hk
       have honest := chanDiff_honest m1.w c hsort
-        (by rw [hlog]; exact fun e he hk' => (hS.above _ hk e he hk').2.1) b.state
+        (by rw [hlog]; exact fun e he hk' => (hS.above _ hk e he hk').2.1)
+        (by rw [hlog, h1.c0 c hk]; exact fun e he hk' => (hS.above _ hk e he hk').1) b.state
+      dsimp only at honest
       rw [hlog] at honest
       rcases chanDiff_cases m1.w c b.state with ⟨p, hans⟩ | ⟨hans, hcand⟩ | hans
       · -- too long
@@ -166,30 +164,58 @@ theorem minv_chGetDifference {O log keys org start} (hO : GoodOrders O) (hS : Sc
           · exact Or.inr (fun h2' => this ⟨h1', h2'⟩)
           · exact Or.inl h1'
         · intro h1'; omega
-      · -- a difference
+      · -- a difference (possibly forwarding foreign updates, which are handed to the main loop)
         rw [hans]
         simp only
         rw [hO.chOwnDirect]
-        simp only [if_true, List.isEmpty_nil, Bool.not_true, Bool.false_eq_true, and_false, if_false]
-        rw [hO.chDiffDifference, shape_tooLong.2.2.2]
-        have h3 : MInv O log keys org start (m2.seqOp O (2 + c) (.seq diffShape
-            (lastPos b.state (fun _ => true) (cut m1.w.chSlice (m1.w.happened.filter fun e : Entry =>
-              e.seqKey == some (2 + c) && decide (e.pos > b.state))).1)
-            ((cut m1.w.chSlice (m1.w.happened.filter fun e : Entry =>
-              e.seqKey == some (2 + c) && decide (e.pos > b.state))).1.filter (·.kind == .chmsg) ++
-             (cut m1.w.chSlice (m1.w.happened.filter fun e : Entry =>
-              e.seqKey == some (2 + c) && decide (e.pos > b.state))).1.filter (·.kind == .chother)))) := by
-          apply minv_seqOp hO hS h2
+        simp only [if_true]
+        rw [hO.chDiffDifference, shape_tooLong.2.2.2, hO.chDiffGuard, guardHolds_ch, if_nonempty_self]
+        generalize hpart : (cut m1.w.chSlice (m1.w.happened.filter fun e : Entry =>
+              e.seqKey == some (2 + c) && decide (e.pos > b.state))).1 = part at *
+        have h2' : MInv O log keys org start
+            (if (List.contains [Call.sendOut, .dispatch, .storeChannelPts, .boxSetPts, .recurse] Call.sendOut = true ∧
+                (!((part.filter (·.kind == .chother) ++ m1.w.extrasOf (2 + c)).filter
+                    (fun e => !(e.seqKey == some (2 + c)))).isEmpty) = true)
+             then { m2 with internal := m2.internal ++ [(part.filter (·.kind == .chother) ++ m1.w.extrasOf (2 + c)).filter
+                    (fun e => !(e.seqKey == some (2 + c)))] }
+             else m2) := by
+          split
+          · refine ⟨⟨h2.coh.hlog, h2.coh.box, h2.coh.tr, h2.coh.wf, h2.coh.pend, h2.coh.nobox⟩, h2.p0, h2.q0, h2.c0,
+              h2.queues, ?_⟩
+            intro cont hc e he
+            show e ∈ log
+            have hc' : cont ∈ m2.internal ++ [(part.filter (·.kind == .chother) ++ m1.w.extrasOf (2 + c)).filter
+                    (fun e => !(e.seqKey == some (2 + c)))] := hc
+            rcases List.mem_append.1 hc' with h' | h'
+            · exact h2.internal cont h' e he
+            · simp only [List.mem_singleton] at h'
+              rw [h'] at he
+              exact honest.2.2 e (List.mem_filter.1 he).1
+          · exact h2
+        generalize hm2' : (if (List.contains [Call.sendOut, .dispatch, .storeChannelPts, .boxSetPts, .recurse] Call.sendOut = true ∧
+                (!((part.filter (·.kind == .chother) ++ m1.w.extrasOf (2 + c)).filter
+                    (fun e => !(e.seqKey == some (2 + c)))).isEmpty) = true)
+             then { m2 with internal := m2.internal ++ [(part.filter (·.kind == .chother) ++ m1.w.extrasOf (2 + c)).filter
+                    (fun e => !(e.seqKey == some (2 + c)))] }
+             else m2) = m2' at *
+        have hb2' : m2'.getBox (2 + c) = some b := by
+          rw [← hm2']; split
+          · exact hb2
+          · exact hb2
+        have h3 : MInv O log keys org start (m2'.seqOp O (2 + c) (.seq diffShape
+            (if part.isEmpty then max b.state (m1.w.serverChan c) else lastPos b.state (fun _ => true) part)
+            (part.filter (·.kind == .chmsg) ++
+              (part.filter (·.kind == .chother) ++ m1.w.extrasOf (2 + c)).filter (·.seqKey == some (2 + c))))) := by
+          apply minv_seqOp hO hS h2'
           · intro b' hb'
-            rw [hb2] at hb'
+            rw [hb2'] at hb'
             have hbb : b' = b := (Option.some.inj hb').symm
             subst hbb
             simp only [wfOp, Bool.and_eq_true, Bool.or_eq_true, List.all_eq_true, decide_eq_true_eq, Bool.not_eq_true']
-            refine ⟨fun e he => honest.2 e he, Or.inl (Or.inl (Or.inl ⟨trivial, ?_⟩))⟩
+            refine ⟨fun e he => honest.2.1 e he, Or.inl (Or.inl (Or.inl ⟨trivial, ?_⟩))⟩
             intro e he
-            by_cases hr : b'.state < e.pos ∧ e.pos ≤ lastPos b'.state (fun _ => true)
-                (cut m1.w.chSlice (m1.w.happened.filter fun e : Entry =>
-                  e.seqKey == some (2 + c) && decide (e.pos > b'.state))).1
+            by_cases hr : b'.state < e.pos ∧ e.pos ≤
+                (if part.isEmpty then max b'.state (m1.w.serverChan c) else lastPos b'.state (fun _ => true) part)
             · rcases honest.1 e he hr.1 hr.2 with h' | h'
               · exact Or.inl (Or.inr h')
               · exact Or.inr h'
